@@ -633,6 +633,9 @@ func runRobust(sec *vh.Section, cases []robustCase, verbose bool) {
 		if c.Kind == "format" && asciiOnlyLower(s) {
 			ml, mi = append(ml, "fmt.parse "+c.S), append(mi, i)
 		}
+		if c.Kind == "lql" && strings.HasPrefix(s, holePrefix+"(") {
+			ml, mi = append(ml, fmt.Sprintf("nest %d %s", 1<<30, c.S)), append(mi, i)
+		}
 		if c.Kind == "expr" && strings.HasSuffix(strings.TrimLeft(s, "("), "a=1"+strings.Repeat(")", len(s)-len(strings.TrimLeft(s, "(")))) {
 			ml, mi = append(ml, fmt.Sprintf("nest %d %s", 1<<30, c.S)), append(mi, i)
 		}
@@ -641,7 +644,7 @@ func runRobust(sec *vh.Section, cases []robustCase, verbose bool) {
 		i := mi[k]
 		res.Dist(sec, cases[i].Kind+"/model-compared")
 		if modelKind(a) != impl[i].Kind {
-			res.Mismatch(vh.Mismatch{Section: "robust", Function: map[string]string{"format": "model.NewFormatParser", "expr": "lql.ParseExpr (nesting guard / depth)"}[cases[i].Kind],
+			res.Mismatch(vh.Mismatch{Section: "robust", Function: map[string]string{"format": "model.NewFormatParser", "expr": "lql.ParseExpr (nesting guard / depth)", "lql": "lql.ParseLql (nesting guard on a text with a tags token)"}[cases[i].Kind],
 				Input: cases[i], Impl: impl[i].Kind, Model: a})
 		}
 	}
@@ -829,6 +832,57 @@ func runNesting(sec *vh.Section, c nestCase, verbose bool) {
 	}
 }
 
+// holePrefix: a tags token with a quote character inside — one token for the lexer, the start of a string literal for a scan
+// that does its own literal skipping
+const holePrefix = "select from {a=b'} where "
+
+type holeCase struct {
+	Prefix     string `json:"prefix"`
+	Depth      int    `json:"depth"`
+	MaxStackMB int    `json:"max_stack_mb"`
+}
+
+// runNestingHole: the nesting limit must hold behind a tags token too. (1) in-process: the text nested Depth/… = 3000 deep must be
+// refused; (2) child process with the stack limit lowered: Depth levels must not end the process.
+func runNestingHole(sec *vh.Section, c holeCase, verbose bool) {
+	nest := func(d int) string { return c.Prefix + strings.Repeat("(", d) + "a=1" + strings.Repeat(")", d) }
+	q := nest(3000)
+	r := guarded(func() (string, error) { _, err := lql.ParseLql(q); return "", err })
+	ans := batch([]string{fmt.Sprintf("nest %d %s", 1<<30, vh.HxS(q)), "nest.hole " + vh.HxS(q), fmt.Sprintf("nest %d %s", 2000, vh.HxS(nest(c.Depth)))})
+	res.Eval(sec, fmt.Sprint("nesting-hole", c))
+	res.Dist(sec, "nesting-hole/3000/"+r.Kind)
+	if verbose {
+		fmt.Printf("nesting-hole %q: depth 3000 -> %s (model %s, class %s)\n", c.Prefix, r.Kind, ans[0], ans[1])
+	}
+	if modelKind(ans[0]) != r.Kind {
+		res.Mismatch(vh.Mismatch{Section: "nesting", Function: "lql.ParseLql (nesting guard on a text with a tags token)", Input: c, Impl: r.Kind, Model: ans[0]})
+	}
+	if r.Kind == "ok" {
+		f := vh.SpecFailure{Section: "nesting", Kind: "nesting-guard-bypassed", Input: c, Impl: "a statement with 3000 nested parentheses is accepted", Spec: "refused (limit 1000)",
+			Model: ans[0] + " class=" + ans[1], ImplEqModel: modelKind(ans[0]) == "ok", What: "the nesting limit does not hold for a text with a quote character inside a {…} tags token"}
+		if f.ImplEqModel && ans[1] == "1" {
+			f.Finding = "F25b"
+		}
+		res.SpecFail(f)
+		// the consequence, in a child process with a small stack
+		cmd := exec.Command(os.Args[0])
+		cmd.Env = append(os.Environ(), "VERIF_C13_CHILD=nest", fmt.Sprintf("VERIF_C13_NEST=%d,%d", c.Depth, c.MaxStackMB), "VERIF_C13_NEST_PREFIX="+c.Prefix)
+		var out, errb bytes.Buffer
+		cmd.Stdout, cmd.Stderr = &out, &errb
+		cmd.Run()
+		died := strings.Contains(errb.String(), "stack overflow") || strings.Contains(errb.String(), "stack exceeds")
+		res.Dist(sec, fmt.Sprintf("nesting-hole/child died=%v", died))
+		if died {
+			f2 := vh.SpecFailure{Section: "nesting", Kind: "fatal-stack-overflow", Input: c, Impl: "fatal-stack-overflow: " + firstLines(errb.String(), 2), Spec: "refused with an error",
+				Model: ans[2], ImplEqModel: modelKind(ans[2]) == "panic", What: "lql.ParseLql recursion depth is unbounded behind a tags token with a quote character"}
+			if f2.ImplEqModel && ans[1] == "1" {
+				f2.Finding = "F25b"
+			}
+			res.SpecFail(f2)
+		}
+	}
+}
+
 func firstLines(s string, n int) string {
 	ls := strings.Split(s, "\n")
 	if len(ls) > n {
@@ -900,6 +954,10 @@ func sectionRobust(rng *vh.Rng) {
 		}
 	}
 	// nesting to depth 2000 (stack use grows linearly; see the nesting case for the fatal end of this family)
+	for _, d := range []int{1, 999, 1000, 1001, 3000} {
+		add("lql", holePrefix+strings.Repeat("(", d)+"a=1"+strings.Repeat(")", d))
+		add("lql", "select from {a=\"} where "+strings.Repeat("(", d)+"a=1"+strings.Repeat(")", d))
+	}
 	for _, d := range []int{1, 2, 10, 100, 500, 999, 1000, 1001, 2000} {
 		add("lql", "select where "+strings.Repeat("(", d)+"a=1"+strings.Repeat(")", d))
 		add("expr", strings.Repeat("(", d)+"a=1"+strings.Repeat(")", d))
@@ -1167,6 +1225,7 @@ func sectionE2E(rng *vh.Rng) {
 	}
 	// F25, in its own child
 	runNesting(sec, nestCase{Depth: 20000, MaxStackMB: 64}, false)
+	runNestingHole(sec, holeCase{Prefix: holePrefix, Depth: 20000, MaxStackMB: 64}, false)
 	res.Done(sec)
 }
 
@@ -1182,6 +1241,9 @@ func childMain() {
 		fmt.Sscanf(os.Getenv("VERIF_C13_NEST"), "%d,%d", &d, &mb)
 		debug.SetMaxStack(mb << 20)
 		q := "select where " + strings.Repeat("(", d) + "a=1" + strings.Repeat(")", d)
+		if p := os.Getenv("VERIF_C13_NEST_PREFIX"); p != "" {
+			q = p + strings.Repeat("(", d) + "a=1" + strings.Repeat(")", d)
+		}
 		done := make(chan error)
 		go func() { _, err := lql.ParseLql(q); done <- err }()
 		err := <-done
